@@ -714,15 +714,24 @@ pub fn c09_strategy(_ctx: &Ctx, for_c05: bool) -> BoxedStrategy<C09Case> {
         }
         threads.push(t);
       }
+      // C09 only: the same observable value is subscribed a second time (synchronous
+      // sources; each subscription has its own scheduler and must receive everything)
+      let second = !for_c05 && !hot && unsub.is_none() && reentrant.is_none() && len % 3 == 0;
+      let mut recorders = vec![match reentrant {
+        Some(at) => vec![Reaction { at, what: React::Emit(0, Ev::N(REENTRANT_ITEM)) }],
+        None => vec![],
+      }];
+      let mut actions = vec![Action::Subscribe(0)];
+      if second {
+        recorders.push(vec![]);
+        actions.push(Action::Subscribe(1));
+      }
       let case = Case {
         root,
         hots: if hot { vec![HotKind::Harness] } else { vec![] },
         hot_illformed: false, conn: None, conn_take: None,
-        recorders: vec![match reentrant {
-          Some(at) => vec![Reaction { at, what: React::Emit(0, Ev::N(REENTRANT_ITEM)) }],
-          None => vec![],
-        }],
-        actions: vec![Action::Subscribe(0)],
+        recorders,
+        actions,
       };
       C09Case { cc: ConcCase { case, threads, sched }, script, hot, has_unsub: unsub.is_some(), subscribe_on }
     })
@@ -805,80 +814,88 @@ fn c09_check_impl(c: &C09Case, c05_only: bool) -> Report {
   if c05_only {
     return rep;
   }
-  let reentrant = !c.cc.case.recorders[0].is_empty();
-  if reentrant {
-    // the script's items in order, and the item pushed from the callback exactly once, at
-    // whatever place the queue gave it
-    rep.classes.push("emission-from-the-worker's-callback".into());
-    let fired = !r.log.reactions_fired.is_empty();
-    if fired {
-      rep.classes.push("emission-from-the-worker's-callback:happened".into());
-    }
-    let own: Vec<Rk> = got.iter().filter(|k| !matches!(k, Rk::N(p) if p.as_i64() == REENTRANT_ITEM)).cloned().collect();
-    let extra = got.len() - own.len();
-    let exp_own: Vec<Rk> = c.script.iter().map(|e| match e {
-      Ev::N(v) => Rk::N(crate::val::P::I(*v)),
-      Ev::E(c) => Rk::E(*c),
-      Ev::C => Rk::C,
-    }).collect();
-    let ok_own = if c.has_unsub { exp_own.starts_with(&own) } else { own == exp_own };
-    if !ok_own {
-      rep.fail = fail(format!("received {} of the source's {}", show_trace(&own), show_trace(&exp_own)));
-      return rep;
-    }
-    if extra > 1 || (fired && !c.has_unsub && extra != 1) || (!fired && extra != 0) {
-      rep.fail = fail(format!("the item pushed from inside the callback was delivered {} time(s) (pushed: {})", extra, fired));
-      return rep;
-    }
+  if c.cc.case.recorders.len() > 1 {
+    rep.classes.push("second-subscription-of-the-same-observable".into());
   }
-  // C09: exactly the source's events, in order, terminal last (a prefix if unsubscribed)
-  let expected = match c09_expected(c) {
-    Some(e) if !reentrant => e,
-    Some(_) => got.clone(),
-    None => return rep,
-  };
-  if c.has_unsub {
-    if !expected.starts_with(&got) {
-      rep.fail = fail(format!("received {} which is not a prefix of {}", show_trace(&got), show_trace(&expected)));
+  for k in 0..c.cc.case.recorders.len() {
+    let evs = ordered(&r.log.recs[k]);
+    let got: Vec<Rk> = evs.iter().map(|e| e.k.clone()).collect();
+    let fail = |m: String| Some(format!("recorder {}: {} | {}", k, m, render_cc(&c.cc, &r)));
+    let reentrant = !c.cc.case.recorders[0].is_empty();
+    if reentrant {
+      // the script's items in order, and the item pushed from the callback exactly once, at
+      // whatever place the queue gave it
+      rep.classes.push("emission-from-the-worker's-callback".into());
+      let fired = !r.log.reactions_fired.is_empty();
+      if fired {
+        rep.classes.push("emission-from-the-worker's-callback:happened".into());
+      }
+      let own: Vec<Rk> = got.iter().filter(|k| !matches!(k, Rk::N(p) if p.as_i64() == REENTRANT_ITEM)).cloned().collect();
+      let extra = got.len() - own.len();
+      let exp_own: Vec<Rk> = c.script.iter().map(|e| match e {
+        Ev::N(v) => Rk::N(crate::val::P::I(*v)),
+        Ev::E(c) => Rk::E(*c),
+        Ev::C => Rk::C,
+      }).collect();
+      let ok_own = if c.has_unsub { exp_own.starts_with(&own) } else { own == exp_own };
+      if !ok_own {
+        rep.fail = fail(format!("received {} of the source's {}", show_trace(&own), show_trace(&exp_own)));
+        return rep;
+      }
+      if extra > 1 || (fired && !c.has_unsub && extra != 1) || (!fired && extra != 0) {
+        rep.fail = fail(format!("the item pushed from inside the callback was delivered {} time(s) (pushed: {})", extra, fired));
+        return rep;
+      }
+    }
+    // C09: exactly the source's events, in order, terminal last (a prefix if unsubscribed)
+    let expected = match c09_expected(c) {
+      Some(e) if !reentrant => e,
+      Some(_) => got.clone(),
+      None => return rep,
+    };
+    if c.has_unsub {
+      if !expected.starts_with(&got) {
+        rep.fail = fail(format!("received {} which is not a prefix of {}", show_trace(&got), show_trace(&expected)));
+        return rep;
+      }
+    } else if got != expected {
+      rep.fail = fail(format!("received {} instead of {}", show_trace(&got), show_trace(&expected)));
       return rep;
     }
-  } else if got != expected {
-    rep.fail = fail(format!("received {} instead of {}", show_trace(&got), show_trace(&expected)));
-    return rep;
-  }
-  // downstream of observe_on (or of subscribe_on over a synchronous source) all callbacks
-  // run on one scheduler thread that is not the emitting thread; never two at once
-  let has_observe_on = c.cc.case.root.has_op(&|n| matches!(n, Node::Un(Op::ObserveOnNew, _)));
-  if has_observe_on || !c.hot {
-    let tids: std::collections::BTreeSet<usize> = evs.iter().map(|e| e.tid).collect();
-    if tids.len() > 1 {
-      rep.fail = fail(format!("callbacks ran on {} different threads", tids.len()));
-      return rep;
+    // downstream of observe_on (or of subscribe_on over a synchronous source) all callbacks
+    // run on one scheduler thread that is not the emitting thread; never two at once
+    let has_observe_on = c.cc.case.root.has_op(&|n| matches!(n, Node::Un(Op::ObserveOnNew, _)));
+    if has_observe_on || !c.hot {
+      let tids: std::collections::BTreeSet<usize> = evs.iter().map(|e| e.tid).collect();
+      if tids.len() > 1 {
+        rep.fail = fail(format!("callbacks ran on {} different threads", tids.len()));
+        return rep;
+      }
+      if let Some(e) = evs.iter().find(|e| !e.lib_thread) {
+        rep.fail = fail(format!("{} was delivered on a harness thread, not on the scheduler's thread", e.k.show()));
+        return rep;
+      }
     }
-    if let Some(e) = evs.iter().find(|e| !e.lib_thread) {
-      rep.fail = fail(format!("{} was delivered on a harness thread, not on the scheduler's thread", e.k.show()));
-      return rep;
+    for w in evs.windows(2) {
+      if w[1].start < w[0].end {
+        rep.fail = fail("two callbacks overlapped".into());
+        return rep;
+      }
     }
-  }
-  for w in evs.windows(2) {
-    if w[1].start < w[0].end {
-      rep.fail = fail("two callbacks overlapped".into());
-      return rep;
+    // (whole callbacks, including what the subscriber did inside them)
+    let mut spans: Vec<(u64, u64)> = r.log.cb_spans.iter().filter(|s| s.0 == k).map(|s| (s.1, s.2)).collect();
+    spans.sort();
+    for w in spans.windows(2) {
+      if w[1].0 < w[0].1 {
+        rep.fail = fail("a callback started while the previous one had not returned yet (nested or concurrent delivery)".into());
+        return rep;
+      }
     }
-  }
-  // (whole callbacks, including what the subscriber did inside them)
-  let mut spans: Vec<(u64, u64)> = r.log.cb_spans.iter().filter(|s| s.0 == 0).map(|s| (s.1, s.2)).collect();
-  spans.sort();
-  for w in spans.windows(2) {
-    if w[1].0 < w[0].1 {
-      rep.fail = fail("a callback started while the previous one had not returned yet (nested or concurrent delivery)".into());
-      return rep;
-    }
-  }
-  if c.subscribe_on {
-    if let Some(p) = r.log.probes.iter().find(|p| !p.on_lib_thread) {
-      rep.fail = fail(format!("subscribe_on: source #{} was subscribed on a harness thread", p.sid));
-      return rep;
+    if c.subscribe_on {
+      if let Some(p) = r.log.probes.iter().find(|p| !p.on_lib_thread) {
+        rep.fail = fail(format!("subscribe_on: source #{} was subscribed on a harness thread", p.sid));
+        return rep;
+      }
     }
   }
   rep
